@@ -105,3 +105,7 @@ pub const MAX_K: usize = 10;
 
 // re-export
 pub use parol_runtime;
+
+/// Verification hooks (feature `verif_hooks`, off by default)
+#[cfg(feature = "verif_hooks")]
+pub mod verif_hooks;
